@@ -683,6 +683,12 @@ func (tic *TermInCommittee) isViewChangeValid(expectedLeaderFromNewView primitiv
 		return fmt.Errorf("sender %s is not a member of the committee", Str(sender.MemberId()))
 	}
 
+	if preparedProof != nil && len(preparedProof.Raw()) > 0 {
+		if preparedProof.PreprepareBlockRef().InstanceId() != header.InstanceId() || preparedProof.PrepareBlockRef().InstanceId() != header.InstanceId() {
+			return fmt.Errorf("prepared proof was produced in another instance")
+		}
+	}
+
 	if !proofsvalidator.ValidatePreparedProof(tic.State.Height(), vcmView, preparedProof, tic.keyManager, tic.committeeMembers, func(view primitives.View) primitives.MemberId { return tic.calcLeaderMemberId(view) }) {
 		return fmt.Errorf("failed ValidatePreparedProof()")
 	}
@@ -764,6 +770,17 @@ func (tic *TermInCommittee) HandleNewView(nvm *interfaces.NewViewMessage) {
 	if err := tic.validateViewChangeVotes(nvmHeader.BlockHeight(), nvmHeader.View(), viewChangeConfirmations); err != nil {
 		//this.logger.log({ subject: "Warning", message: `blockHeight:[${blockHeight}], view:[${view}], HandleNewView from "${senderId}", votes is invalid` });
 		tic.logger.Info("LHMSG RECEIVED NEW_VIEW IGNORE - validateViewChangeVotes failed: %s", err)
+		return
+	}
+
+	for _, confirmation := range viewChangeConfirmations {
+		if confirmation.SignedHeader().InstanceId() != nvmHeader.InstanceId() {
+			tic.logger.Info("LHMSG RECEIVED NEW_VIEW IGNORE - a view-change confirmation was produced in another instance")
+			return
+		}
+	}
+	if ppMessageContent.SignedHeader().InstanceId() != nvmHeader.InstanceId() {
+		tic.logger.Info("LHMSG RECEIVED NEW_VIEW IGNORE - NewView.Preprepare was produced in another instance")
 		return
 	}
 
